@@ -34,4 +34,21 @@ pub assume_specification<T: core::cmp::PartialEq> [<[T]>::contains] (s: &[T], x:
 pub assume_specification [i64::unsigned_abs] (x: i64) -> (r: u64)
     ensures r as int == (if x >= 0 { x as int } else { -(x as int) });
 
+
+pub assume_specification [u128::overflowing_add] (a: u128, b: u128) -> (r: (u128, bool))
+    ensures r.0 as int + (if r.1 { 0x1_0000_0000_0000_0000int * 0x1_0000_0000_0000_0000int } else { 0 }) == a as int + b as int;
+
+
+/// u128::trailing_zeros in arithmetic form (vstd only covers widths up to 64)
+pub uninterp spec fn u128_tz(x: u128) -> u32;
+#[verifier::external_body]
+pub proof fn axiom_u128_tz(x: u128)
+    ensures
+        x == 0 ==> u128_tz(x) == 128,
+        x != 0 ==> u128_tz(x) < 128 && (x as int) % (vstd::arithmetic::power2::pow2(u128_tz(x) as nat) as int) == 0
+            && ((x as int) / (vstd::arithmetic::power2::pow2(u128_tz(x) as nat) as int)) % 2 == 1,
+{}
+pub assume_specification [u128::trailing_zeros] (x: u128) -> (r: u32)
+    ensures r == u128_tz(x);
+
 } // verus!
